@@ -73,6 +73,9 @@ def run(ctx):
         if c["op"] == "c20.sub":
             c["reps"] = 8 if quick else 60
     ctx.log("configurations: %d tessellation, %d other" % (len(tess), len(other)))
-    cands = tr.run(tess + other, "c20")
+    batch = tess + other
+    cands = []
+    for i in range(0, len(batch), 25000):     # <= ~130k events per trace file
+        cands += tr.run(batch[i:i + 25000], "c20")
     ctx.counters["trace_events_validated_by_tlc"] = tr.events
     base.settle(ctx, tr, cands)
